@@ -65,6 +65,11 @@ def uf_axioms(C: Ctx):
             for (a1, r1, _), (a2, r2, _), (a3, r3, _) in itertools.permutations(apps, 3):
                 if a1[0].get_id() < a2[0].get_id():
                     ax.append(z3.Implies(z3.And(a1[0] > 0, a2[0] > 0, a3[0] == a1[0] * a2[0]), r3 == r1 + r2))
+    # uninterpreted abstractions (opaque_math): congruence only
+    for fam, apps in U.items():
+        if fam.startswith("opq_") and len(apps) <= 60:
+            for (a1, r1, _), (a2, r2, _) in itertools.combinations(apps, 2):
+                ax.append(z3.Implies(z3.And(*[x == y for x, y in zip(a1, a2)]), r1 == r2))
     # pow(x, k)
     P = U.get("pow", [])
     for (a, r, _) in P:
